@@ -7,37 +7,78 @@ import gen_tree as GT
 from sx import run_model
 
 
+class CaseTimeout(BaseException):
+    pass
+
+
+CASE_TIMEOUT = 20          # seconds per implementation run (a normal case takes milliseconds)
+
+
 def run_cases(ctx, cases, label, scratch):
     """realise + run implementation, run model, compare; returns list of (case, impl, model)"""
+    import signal
     impl_res = []
     reqs = []
+    timeouts = 0
+
+    def on_alarm(signum, frame):
+        raise CaseTimeout()
+    old_handler = signal.signal(signal.SIGALRM, on_alarm)
     for c in cases:
+        if timeouts >= 3:
+            impl_res.append(['skipped-after-timeouts'])
+            reqs.append(None)
+            continue
         b, s = scratch.fresh()
         try:
-            key = GT.order_key_for(c.meta.get('order_seed', 0))
-            paths = c.tree.realise(b, s)
-            c.meta['paths'] = None
-            real_faults = []
-            for prim, ino, en in c.faults:
-                if ino not in paths:
-                    continue          # an object no longer linked anywhere: the fault is unobservable in both
-                st = os.stat(paths[ino])
-                real_faults.append((prim, (st.st_dev, st.st_ino), en))
-            r = ET.run_impl(b, c.top, c.opts, c.allow_create, c.allow_xdev, c.ops, key, real_faults)
-            if ET.LAST_STAMPS:
-                c.meta['stamps'] = list(ET.LAST_STAMPS)
+            signal.setitimer(signal.ITIMER_REAL, CASE_TIMEOUT)
+            try:
+                key = GT.order_key_for(c.meta.get('order_seed', 0))
+                paths = c.tree.realise(b, s)
+                c.meta['paths'] = None
+                real_faults = []
+                for prim, ino, en in c.faults:
+                    if ino not in paths:
+                        continue          # an object no longer linked anywhere: the fault is unobservable in both
+                    st = os.stat(paths[ino])
+                    real_faults.append((prim, (st.st_dev, st.st_ino), en))
+                r = ET.run_impl(b, c.top, c.opts, c.allow_create, c.allow_xdev, c.ops, key, real_faults)
+                if ET.LAST_STAMPS:
+                    c.meta['stamps'] = list(ET.LAST_STAMPS)
+            finally:
+                signal.setitimer(signal.ITIMER_REAL, 0)
+        except CaseTimeout:
+            timeouts += 1
+            r = ['timeout', CASE_TIMEOUT]
+            ctx.violation('spec' if ctx.pid == 'C16' else 'correspondence',
+                          f'{label}: the implementation did not finish within {CASE_TIMEOUT} s on a small tree (the reference model answers at once'
+                          + ('; C16: verification and update terminate' if ctx.pid == 'C16' else '') + ')',
+                          {'where': label, 'meta': {k: v for k, v in c.meta.items() if k not in ('paths', 'stamps')}, 'ops': c.ops,
+                           'impl': r, 'tree': describe(c.tree)})
         except Exception as e:
             r = ['harness-error', repr(e)]
         finally:
+            signal.setitimer(signal.ITIMER_REAL, 0)
             scratch.cleanup(b, s)
         impl_res.append(r)
+        if r[0] == 'timeout':
+            reqs.append(None)
+            continue
         rq = ET.model_request(c.tree, c.top, c.opts, c.allow_create, c.allow_xdev, c.ops,
                               GT.order_key_for(c.meta.get('order_seed', 0)), c.hash_names, c.faults)
         ET.preseed_oracles(rq, r)
         reqs.append(rq)
-    model = ET.run_model_completing(reqs)
+    signal.signal(signal.SIGALRM, old_handler)
+    live = [k for k, rq in enumerate(reqs) if rq is not None]
+    model_live = ET.run_model_completing([reqs[k] for k in live])
+    model = [None] * len(reqs)
+    for k, m in zip(live, model_live):
+        model[k] = m
     out = []
     for c, i, m in zip(cases, impl_res, model):
+        if m is None:
+            out.append((c, i, i))
+            continue
         links = c.tree.link_paths()
         i, m = canon_result(i, links), canon_result(m, links)
         i, m = exhausted(i, m)
@@ -286,11 +327,15 @@ def run_cli_collect(argv):
     old = root.level
     root.addHandler(h)
     root.setLevel(logging.ERROR)
+    import common
     try:
         try:
-            rc = gemato.cli.main(argv)
+            with common.watchdog(40):
+                rc = gemato.cli.main(argv)
         except SystemExit as e:
             rc = e.code if isinstance(e.code, int) else 2
+        except common.CaseTimeout:
+            rc = 'exception:DidNotTerminate'
         except Exception as e:
             rc = 'exception:' + type(e).__name__
     finally:
